@@ -4,7 +4,7 @@
    non-vacuity examples and the axiom audit.  `step` is one call on a collection of any
    of the four types from any sender; `run` is any sequence of calls (failed calls leave
    the state alone, as on the chain). *)
-From LP Require Import Num Pay Sg1 Consts Collection CollectionProofs.
+From LP Require Import Num Pay Sg1 Consts Semver Collection CollectionProofs.
 Import ListNotations.
 Local Open Scope N_scope.
 
@@ -93,6 +93,48 @@ Theorem C10_info_wf_preserved : forall ct self e o s s' ms,
   info_wf (info s) -> step ct self e o s = Ok (s', ms) -> info_wf (info s').
 Proof. exact info_wf_step. Qed.
 
+(* ==== histories that contain migrations to the sg721-updatable code ====
+   (`dstep`/`drun`: calls and admin migrations on the deployed contract with its cw2 record).
+   A migration never touches the royalty; it re-creates the 24 h anchor (now - 24 h) only
+   when the recorded cw2 version is below 3.1.0 - deployments that predate the anchor.  A
+   deployment at or above 3.1.0 (every fresh one: it records the workspace version) stays
+   so, and over its whole future accepted royalty changes are at least 24 h apart. *)
+Theorem C10_share_le_100_with_migrations : forall self txs d,
+  match ci_royalty (info (d_st d)) with Some r => r_share r <= 1000000000000000000 | None => True end ->
+  match ci_royalty (info (d_st (drun self d txs))) with
+  | Some r => r_share r <= 1000000000000000000
+  | None => True
+  end.
+Proof. exact d_share_ok_run. Qed.
+
+Theorem C10_raise_bounded_with_migrations : forall self e a d d' ms old new,
+  dstep self e a d = Ok (d', ms) ->
+  ci_royalty (info (d_st d)) = Some old -> ci_royalty (info (d_st d')) = Some new ->
+  r_share old < r_share new ->
+  r_share new - r_share old <= 20000000000000000 /\ r_share new <= 100000000000000000.
+Proof. exact d_raise_bounded. Qed.
+
+Theorem C10_climb_bounded_with_migrations : forall self txs d share0,
+  share_of (d_st d) = Some share0 ->
+  exists share1, share_of (d_st (drun self d txs)) = Some share1 /\
+                 share1 <= N.max share0 100000000000000000.
+Proof. exact d_climb_bounded. Qed.
+
+Theorem C10_cadence_with_migrations : forall self txs d,
+  ver_ltb (d_ver d) (3, 1, 0) = false ->
+  gaps_ok 86400000000000 (royalty_updated_at (d_st d)) (d_accepted_changes self d txs).
+Proof. exact d_cadence. Qed.
+
+Theorem C10_cadence_any_two_with_migrations : forall self txs d,
+  ver_ltb (d_ver d) (3, 1, 0) = false ->
+  ForallOrdPairs (fun t1 t2 => t1 + 86400000000000 <= t2) (d_accepted_changes self d txs).
+Proof. exact d_cadence_any_two. Qed.
+
+Theorem C10_cadence_from_creation_with_migrations : forall self ct admin time0 by_contract funds0 minter c s txs,
+  instantiate ct time0 by_contract funds0 minter c = Ok s ->
+  Forall (fun t => time0 + 86400000000000 <= t) (d_accepted_changes self (fresh ct admin s) txs).
+Proof. exact d_cadence_from_creation. Qed.
+
 (* ---- the payout helper *)
 Theorem C10_payout_none : forall payment fee finders,
   royalty_payout None payment fee finders = Ok (0, []).
@@ -162,6 +204,25 @@ Example C10_ex_payout_10pct_of_1000 :
   royalty_payout (Some (mkRoy 18 333333333333333333)) 10 0 None = Ok (3, [Send 18 NATIVE 3]).
 Proof. vm_compute. repeat split; reflexivity. Qed.
 
+(* raise, migrate sg721-base -> sg721-updatable an hour later, raise again: refused until
+   24 h after the first raise; a record older than 3.1.0 gets its anchor created instead *)
+Example C10_ex_cadence_survives_migration :
+  let day := 86400000000000 in
+  let hour := 3600000000000 in
+  let up share := ACall (c10_ex_upd share) in
+  let txs := [(mkEnv (c10_ex_t0 + day) 12 [], up 70000000000000000);
+              (mkEnv (c10_ex_t0 + day + hour) 12 [], AMigrate);
+              (mkEnv (c10_ex_t0 + day + hour + 1) 12 [], up 90000000000000000);
+              (mkEnv (c10_ex_t0 + 2 * day - 1) 12 [], up 90000000000000000);
+              (mkEnv (c10_ex_t0 + 2 * day) 12 [], up 90000000000000000)] in
+  let d := drun 11 (fresh Base 12 c10_ex_s0) txs in
+  d_ct d = Updatable /\ share_of (d_st d) = Some 90000000000000000 /\
+  d_accepted_changes 11 (fresh Base 12 c10_ex_s0) txs = [c10_ex_t0 + day; c10_ex_t0 + 2 * day] /\
+  (* pre-3.1.0 record: the migration creates the anchor at now - 24 h *)
+  royalty_updated_at (d_st (drun 11 (mkDep Base 12 NBase (3, 0, 9) c10_ex_s0)
+                              [(mkEnv (c10_ex_t0 + day + hour) 12 [], AMigrate)])) = c10_ex_t0 + hour.
+Proof. vm_compute. repeat split; reflexivity. Qed.
+
 Print Assumptions C10_share_le_100_at_creation.
 Print Assumptions C10_share_le_100_after_any_call.
 Print Assumptions C10_share_le_100_always.
@@ -180,3 +241,10 @@ Print Assumptions C10_payout_floor.
 Print Assumptions C10_payout_refuses.
 Print Assumptions C10_payout_accepts.
 Print Assumptions C10_payout_percent.
+
+Print Assumptions C10_share_le_100_with_migrations.
+Print Assumptions C10_raise_bounded_with_migrations.
+Print Assumptions C10_climb_bounded_with_migrations.
+Print Assumptions C10_cadence_with_migrations.
+Print Assumptions C10_cadence_any_two_with_migrations.
+Print Assumptions C10_cadence_from_creation_with_migrations.
